@@ -45,6 +45,11 @@ def observe(e):
     return obs, bool(A.is_linear(e)), bool(A.is_quadratic(e))
 
 
+def malformed(obs):
+    """A reported degree must be None or a natural number."""
+    return [d for d in obs if d is not None and not (isinstance(d, (int, np.integer)) and not isinstance(d, bool) and d >= 0)]
+
+
 def corner(g: gen.Gen):
     """Corner stream named by the property: vector nodes holding non-polynomial
     elements, non-integer / negative / zero vector powers, constant sub-expressions."""
@@ -106,26 +111,41 @@ def finite_difference_refutes(e, d, rng) -> dict | None:
 
 def run(rep: vk.Report):
     ok = vk.proof_stage(rep, "C04")
-    n_main, n_corner, n_deep = (900, 600, 14) if rep.tier == "quick" else (20000, 20000, 60)
+    n_main, n_corner, n_deep = (500, 400, 14) if rep.tier == "quick" else (20000, 20000, 60)
     rng = common.rng_for(rep.seed, "C04")
     cases = Cases("degree", "Degree", "expr * list (option nat) * bool * bool", CHECKER)
     exprs = []
     unsupported = 0
     hits = {}
-    for i in range(n_main + n_corner):
-        g = gen.Gen(random.Random(rng.random()), profile=rng.choice(["poly", "poly", "smooth", "all"]))
+    def sources():
+        for f in ("poly", "all"):
+            for g, e in common.corpus(rng, rep.tier, 0, focus_profile=f):
+                yield g, e, "focused"
+        for i in range(n_main + n_corner):
+            g = gen.Gen(random.Random(rng.random()), profile=rng.choice(["poly", "poly", "smooth", "all"]))
+            try:
+                e = corner(g) if i >= n_main else g.expr(rng.choice([2, 3, 4]))
+            except Exception:
+                continue
+            yield g, e, ("corner" if i >= n_main else "main")
+
+    for g, e, stream in sources():
         try:
-            e = corner(g) if i >= n_main else g.expr(rng.choice([2, 3, 4]))
             S = ser.Ser()
             t = S.expr(e)
         except ser.Unsupported:
             unsupported += 1
             continue
         obs, lin, quad = observe(e)
+        if malformed(obs):
+            rep.violation({"kind": "correspondence", "obligation": "a reported degree is None or a natural number",
+                           "expr": t[:3000], "observations": [repr(d) for d in obs], "is_linear": lin, "is_quadratic": quad,
+                           "witness": {"expr": repr(e)[:500], "degrees": [repr(d) for d in obs]}}, concrete=True)
+            continue
         for k, v in g.hits.items():
             hits[k] = hits.get(k, 0) + v
         cases.add(f"({t}, {ser.lst(ser.opt_nat(d) for d in obs)}, {str(lin).lower()}, {str(quad).lower()})",
-                  {"obs": obs, "lin": lin, "quad": quad, "stream": "corner" if i >= n_main else "main"})
+                  {"obs": obs, "lin": lin, "quad": quad, "stream": stream})
         exprs.append(e)
     fails = cases.run()
 
@@ -150,6 +170,12 @@ def run(rep: vk.Report):
             continue
         S = ser.Ser()
         ts = ser.lst(S.expr(t) for t in terms)
+        if malformed(obs):
+            rep.violation({"kind": "correspondence", "obligation": "a reported degree is None or a natural number",
+                           "chain": {"n": n, "op": op, "assoc": assoc, "base": kind}, "observations": [repr(d) for d in obs],
+                           "is_linear": lin, "witness": {"n": n, "op": op, "assoc": assoc, "base": kind, "first_terms": [repr(t)[:80] for t in terms[:3]],
+                                                          "degrees": [repr(d) for d in obs], "is_linear": lin}}, concrete=True)
+            continue
         deep.add(f"({common.ASSOC[assoc]}%nat, {ser.BOPS[op]}, {ts}, {ser.lst(ser.opt_nat(d) for d in obs)}, {str(lin).lower()})",
                  {"n": n, "op": op, "assoc": assoc, "base": kind, "obs": obs}, kinds={f"chain:{op}", f"assoc:{assoc}", f"base:{kind}", f"n:{n}"})
         deep_exprs.append(e)
